@@ -578,7 +578,7 @@ template <size_t L, size_t SU = SU_DEFAULT> struct Box : public IBox {
       OP("front", 0) return run(IMPL { return rc(s->front()); }, TWIN { return rc(ref.empty() ? '\0' : ref.front()); });
       OP("back", 0) return run(IMPL { return rc(s->back()); }, TWIN { return rc(ref.empty() ? '\0' : ref.back()); });
       OP("stream", 0) return run(IMPL { std::ostringstream os; os << *s; return enc(os.str()); },
-                                 TWIN { std::ostringstream os; os << ref.c_str(); return enc(os.str()); });
+                                 TWIN { std::ostringstream os; os << ref; return enc(os.str()); });   // the real operator<< of std::string (all size() characters)
 
       // ----- iteration ------------------------------------------------------------------------
       OP("iter_fwd", 0) return run(IMPL { std::string o; size_t n = 0;
